@@ -28,14 +28,15 @@ RULES = {
 }
 PROBES = ["change_in_response_window", "change_during_answer", "retry_after_lost_ack", "retry_after_garbled_ack",
           "retry_after_other_ep_traffic", "retry_after_other_device_ack", "acked_polls", "other_ep_acked_between", "wide_signal_ge_24",
-          "partial_top_byte", "big_endian_multibyte", "tx_stalled_answer"]
+          "partial_top_byte", "big_endian_multibyte", "tx_stalled_answer", "signal_in_other_domain"]
 META = {
     "components_real": ["USBDevice", "USBSignalInEndpoint", "USBStreamInEndpoint", "USBControlEndpoint", "USBTokenDetector",
                         "USBHandshakeDetector", "USBDataPacketGenerator", "USBDataPacketCRC", "USBInterpacketTimer", "USBEndpointMultiplexer"],
     "components_stubbed": ["UTMI PHY + host (models.usb2.UTMIHost)", "monitored signal driver (literal change list)",
                            "always-valid producer on the bulk IN endpoint"],
     "assumptions": ["legal UTMI; the host never transmits while the device transmits; handshakes follow the answer after >= 2 bit times",
-                    "signal_domain='usb' (the signal changes on usb clock edges)",
+                    "signal_domain='usb' in 3 of 4 configuration groups; in the fourth signal_domain='sync', a domain clocked in phase "
+                    "with usb (no real asynchrony), and the sampled value may be up to 4 cycles older (synchroniser delay)",
                     "'sampled when the request arrived' = any value held between the first cycle of the IN token and the first "
                     "cycle of the answer",
                     "upstream packets of other devices are not visible to the DUT (hub behaviour): a foreign IN transaction is "
@@ -49,17 +50,24 @@ TIERS = {"quick": {"runs": 2400, "wall": 70}, "thorough": {"runs": 16000, "wall"
 EP = 3
 WIDTHS = [1, 5, 8, 9, 12, 16, 20, 24, 31, 32, 33, 40]
 PULSE_WINDOW = 8
+CDC_SLACK = 4             # cycles a synchroniser may delay the signal (signal_domain != 'usb')
 
 
 def _bench_cfg(index):
     r = random.Random(index // 8 * 2654435761 % (1 << 32))
-    return {"variant": r.choice(["V1", "V2"]), "width": r.choice(WIDTHS), "endianness": r.choice(["little", "big"])}
+    c = {"variant": r.choice(["V1", "V2"]), "width": r.choice(WIDTHS), "endianness": r.choice(["little", "big"])}
+    if (index // 8) % 4 == 3:
+        # the monitored signal lives in another clock domain (constructor option signal_domain); the domain is clocked in
+        # phase with "usb" here, and the oracle allows a synchroniser's worth of extra sampling delay
+        c["signal_domain"] = "sync"
+    return c
 
 
 def _dev_cfg(c):
     return {"variant": c["variant"], "spy": False,
             "endpoints": [{"kind": "stream_in", "ep": 1, "mps": 8},
-                          {"kind": "status_in", "ep": EP, "width": c["width"], "endianness": c["endianness"]}]}
+                          dict({"kind": "status_in", "ep": EP, "width": c["width"], "endianness": c["endianness"]},
+                               **({"signal_domain": c["signal_domain"]} if c.get("signal_domain") else {}))]}
 
 
 def _value(rng, width, prev):
@@ -293,6 +301,8 @@ def run(scn):
         probes["partial_top_byte"] += 1
     if endianness == "big" and nbytes > 1:
         probes["big_endian_multibyte"] += 1
+    if cfg.get("signal_domain"):
+        probes["signal_in_other_domain"] += 1
 
     toggle = 0
     pending = None                 # (payload, pid) of an answer that was not ACKed
@@ -345,7 +355,7 @@ def run(scn):
             if name != f"DATA{toggle}":
                 viol.add("C17.toggle", r["start"], f"answer carries {name}, expected DATA{toggle} {cfg_txt}", kind="wrong_pid", after=after, **shape)
                 break
-            cands = values_between(rec["t_tok_start"], r["start"])
+            cands = values_between(rec["t_tok_start"] - (CDC_SLACK if cfg.get("signal_domain") else 0), r["start"])
             if len(cands) > 1:
                 probes["change_in_response_window"] += 1
             if values_between(r["start"] + 1, r["end"]) != values_between(r["start"] + 1, r["start"] + 1):
